@@ -2,8 +2,8 @@
 (* C19: every combination of an old and a new name from the universe below,
    strip level 0..2, and the header position that carries the names (---/+++
    lines, or only the diff --git line of a rename).  Verdict: refused iff a
-   name that the file patch carries is, after stripping, absolute or contains
-   ".."; otherwise the push works on the path the names land on. *)
+   name that the file patch carries is, after stripping, empty, absolute or
+   contains ".."; otherwise the push works on the path the names land on. *)
 EXTENDS Names, Json, TLC
 CONSTANTS EmitCases
 VARIABLES old, new, strip, viaGit, ph
@@ -18,8 +18,9 @@ Next == /\ ph = 0 /\ ph' = 1
 
 So == Strip(old, strip)
 Sn == Strip(new, strip)
-Verdict == [refused |-> Unsafe(So) \/ Unsafe(Sn),
-            degenerate |-> So = <<>> \/ Sn = <<>> \/ Lands(So) = <<>> \/ Lands(Sn) = <<>>,   \* stripped to nothing: not decisive
+\* a name with no component left after stripping names no file: refused like an unsafe one
+Verdict == [refused |-> So = <<>> \/ Sn = <<>> \/ Unsafe(So) \/ Unsafe(Sn),
+            degenerate |-> (So # <<>> /\ Lands(So) = <<>>) \/ (Sn # <<>> /\ Lands(Sn) = <<>>),   \* "." alone, the working directory itself: not decisive
             old |-> Lands(So), new |-> Lands(Sn)]
 Emit == (EmitCases /\ ph = 1) => PrintT(ToJson([old |-> old, new |-> new, strip |-> strip, viaGit |-> viaGit, verdict |-> Verdict]))
 =============================================================================
